@@ -856,6 +856,7 @@ def t_range(args, kw, node):
 
 def t_zip(args, kw, node):
     # structured zip: lists with the same explicit prefix length are zipped element-wise, tails with tails
+    args = [Lst(list(a.items)) if isinstance(a, Tup) else a for a in args]
     if args and all(isinstance(a, Lst) for a in args):
         n = min(len(a.items) for a in args)
         if all(len(a.items) == n for a in args) and (all(a.tail is not None for a in args) or all(a.tail is None for a in args)):
@@ -988,8 +989,12 @@ def t_dict(args, kw, node):
     if args and isinstance(args[0], Dct):
         d.update(args[0].d)
     elif args and isinstance(args[0], Lst):
-        # dict(zip(...)) etc: unknown keys
-        return Dct({})
+        a0 = args[0]
+        if a0.tail is None and all(isinstance(x, Tup) and len(x.items) == 2 and isinstance(x.items[0], Cst) for x in a0.items):
+            # dict(zip(("a", "b"), values)) with literal keys
+            d.update({x.items[0].v: x.items[1] for x in a0.items})
+        else:
+            return Dct({})      # unknown keys
     d.update(kw)
     return Dct(d)
 
@@ -1252,7 +1257,18 @@ def assign(t, v, fr, node):
     if isinstance(t, ast.Name):
         fr.env[t.id] = v
     elif isinstance(t, (ast.Tuple, ast.List)):
-        if isinstance(v, Tup) and len(v.items) == len(t.elts):
+        stars = [k for k, x in enumerate(t.elts) if isinstance(x, ast.Starred)]
+        seq = v.items if isinstance(v, Tup) else (v.items if isinstance(v, Lst) and v.tail is None else None)
+        if len(stars) == 1 and seq is not None and len(seq) >= len(t.elts) - 1:
+            # a, b, *rest = (x0, x1, x2, ...): the starred target takes the middle as a list
+            k = stars[0]
+            after = len(t.elts) - k - 1
+            for tt, vv in zip(t.elts[:k], seq[:k]):
+                assign(tt, vv, fr, node)
+            assign(t.elts[k].value, Lst(list(seq[k:len(seq) - after])), fr, node)
+            for tt, vv in zip(t.elts[k + 1:], seq[len(seq) - after:] if after else []):
+                assign(tt, vv, fr, node)
+        elif isinstance(v, Tup) and len(v.items) == len(t.elts):
             for tt, vv in zip(t.elts, v.items):
                 assign(tt, vv, fr, node)
         elif isinstance(v, Lst) and len(v.items) == len(t.elts) and v.tail is None:
@@ -2114,6 +2130,14 @@ def call_ext(n, args, kw, e, fr):
         if key in NP and NP[key] is not None:
             CTX.used.add("numpy." + key)
             return NP[key](args, kw, e)
+        if key in ("reshape", "flatten", "item", "clip", "std") and args:
+            # function form of an array method: np.reshape(a, shape) == a.reshape(shape)
+            CTX.used.add("numpy." + key)
+            kw2 = dict(kw)
+            extra = list(args[1:])
+            if key == "reshape" and not extra and ("newshape" in kw2 or "shape" in kw2):
+                extra = [kw2.pop("newshape", None) or kw2.pop("shape")]
+            return arrmethod(num(args[0]) if not isinstance(args[0], (Top, Unk)) else args[0], key, extra, kw2, e)
     for k, fnc in EXTF.items():
         if n == k:
             if n in CTX.probe_names:
